@@ -101,7 +101,7 @@ class C12(core.Prop):
                       "messages the model's own parser accepts")
     uses_registry = True
     rule = ("fault catalogue (unknown device / property / element, kind mismatch for every pair of kinds, writes to light properties, invalid "
-            "switch / number / base64 text, wrong, non-numeric or missing BLOB size, no children, duplicate children, def/set/del/message sent by "
+            "switch / number / base64 text, wrong, non-numeric, infinite, fractional, negative, huge or missing BLOB size, no children, duplicate children, def/set/del/message sent by "
             "a client, unknown getProperties / enableBLOB targets, non-message elements) x every target vector kind x every position in a session "
             "of valid traffic x transport {TCP handler, TTY handler, direct router call}; non-trivial = session containing a hostile message; "
             "distinct by (transport, texts)")
